@@ -107,7 +107,8 @@ theorem C10_splitlines_lossless (text : List Char) :
     ∀ l ∈ splitLines text, ∀ c ∈ l, isBreakChar c = false :=
   ⟨splitLines_flatten text, splitLines_no_break text⟩
 
-example : splitLines "a\r\nb\u2028\nc\r".toList = ["a".toList, "b".toList, [], "c".toList] := by decide
+example : splitLines ['a', '\r', '\n', 'b', '\n', '\n', 'c', '\r'] = [['a'], ['b'], [], ['c']] := by
+  decide +kernel
 
 /-- Line numbers: every token's line is between 1 and (number of lines + 1), tokens never
 span lines, and line numbers never decrease along the output. -/
